@@ -132,8 +132,10 @@ class QModuleMixin(ABC):
                     self.weight_group_size = group_size
         self.activation_qtype = activations
         self.optimizer = optimizer
-        self.register_buffer("input_scale", torch.ones(()))
-        self.register_buffer("output_scale", torch.ones(()))
+        # The activation scales have the dtype (and device) of the module
+        scale_kwargs = {"dtype": kwargs.get("dtype"), "device": kwargs.get("device")}
+        self.register_buffer("input_scale", torch.ones((), **scale_kwargs))
+        self.register_buffer("output_scale", torch.ones((), **scale_kwargs))
 
     def _save_to_state_dict(self, destination, prefix, keep_vars):
         if self.weight_qtype is None or not self.frozen:
